@@ -133,8 +133,7 @@ def neutral(props, base):
     # changing behaviour (403 tests + rendered-output comparison); where a rule still answers UNDECIDED on such a restructuring the property is listed
     # as a known limit of that rule (DESIGN section 7) instead of being silently dropped from the run
     patches = [("edits", "edits.diff", ()), ("clippy-fix", "clippy_fix.diff", ())]
-    patches += [("refactor-N1", "refactor_N1.diff", ()), ("refactor-N2", "refactor_N2.diff", ("C02", "C05", "C13")), ("refactor-N3", "refactor_N3.diff", ()),
-                ("refactor-N4", "refactor_N4.diff", ()), ("refactor-N5", "refactor_N5.diff", ("C14",)), ("refactor-N6", "refactor_N6.diff", ())]
+    patches += [("refactor-N%d" % i, "refactor_N%d.diff" % i, ()) for i in range(1, 13)]  # two campaigns of six agent-written refactorings; no known limit left
     limits = {}
     for name, fn, skip in patches:
         limits[name] = set(skip)
